@@ -38,6 +38,7 @@ from numpy import (
     delete,
     fromiter,
     indices as array_indices,
+    inf,
     isinf,
     isnan,
     isneginf,
@@ -202,10 +203,13 @@ class Element(ABC):
         self._parameter_fixed: Dict[str, bool] = self._parameter_default_fixed.copy()
 
     def __copy__(self) -> "Element":
+        # The lower limits are widened first so that the order in which the
+        # validating setters are applied cannot cause valid limits to be refused.
         return (
             type(self)()
-            .set_lower_limits(**self.get_lower_limits())
+            .set_lower_limits(**{key: -inf for key in self.get_lower_limits()})
             .set_upper_limits(**self.get_upper_limits())
+            .set_lower_limits(**self.get_lower_limits())
             .set_values(**self.get_values())
             .set_fixed(**self.are_fixed())
             .set_label(self._label)
@@ -542,8 +546,13 @@ class Element(ABC):
             The values can be anything.
         """
         self.set_values(**self.get_default_values(*args, **kwargs))
-        self.set_lower_limits(**self.get_default_lower_limits(*args, **kwargs))
+        # Widen the lower limits first so that the current limits cannot cause
+        # the default limits to be refused.
+        self.set_lower_limits(
+            **{key: -inf for key in self.get_default_lower_limits(*args, **kwargs)}
+        )
         self.set_upper_limits(**self.get_default_upper_limits(*args, **kwargs))
+        self.set_lower_limits(**self.get_default_lower_limits(*args, **kwargs))
         self.set_fixed(**self.are_fixed_by_default(*args, **kwargs))
 
     def reset_parameter(self, key: str):
@@ -556,8 +565,9 @@ class Element(ABC):
             A string key corresponding to a parameter.
         """
         self.set_values(key, self.get_default_value(key))
-        self.set_lower_limits(key, self.get_default_lower_limit(key))
+        self.set_lower_limits(key, -inf)
         self.set_upper_limits(key, self.get_default_upper_limit(key))
+        self.set_lower_limits(key, self.get_default_lower_limit(key))
         self.set_fixed(key, self.is_fixed_by_default(key))
 
     def are_fixed(self, *args, **kwargs) -> Dict[str, bool]:
@@ -1675,8 +1685,9 @@ class Container(Element):
                     for k, v in self.get_subcircuits().items()
                 },
             )
-            .set_lower_limits(**self.get_lower_limits())
+            .set_lower_limits(**{key: -inf for key in self.get_lower_limits()})
             .set_upper_limits(**self.get_upper_limits())
+            .set_lower_limits(**self.get_lower_limits())
             .set_fixed(**self.are_fixed())
             .set_label(self._label)
         )
@@ -1694,8 +1705,9 @@ class Container(Element):
                         for k, v in self.get_subcircuits().items()
                     },
                 )
-                .set_lower_limits(**self.get_lower_limits())
+                .set_lower_limits(**{key: -inf for key in self.get_lower_limits()})
                 .set_upper_limits(**self.get_upper_limits())
+                .set_lower_limits(**self.get_lower_limits())
                 .set_fixed(**self.are_fixed())
                 .set_label(self._label)
             )
